@@ -37,7 +37,7 @@ PROP = "C06"
 RUNS = {"quick": 8000, "thorough": 250000}
 WALL = {"quick": 240, "thorough": 2400}
 RUN_TIMEOUT = 120
-RULE = ("scenario = optimiser class (17), problem (EBV family; encoding subset/real/integer/binary; 3-10 candidates; subset size 1..n; 1 or 2 "
+RULE = ("scenario = optimiser class (17), problem (EBV family; encoding subset/real/integer/binary; 3-10 candidates, candidate set in index order or shuffled / partial (given at construction or through the setter), bounds of real/integer problems optionally re-set through the setters; subset size 1..n; 1 or 2 "
         "objectives; with/without an inequality constraint), hyper-parameters (ngen 1-4, pop 4-12), global seed, generator mode (global | own "
         "Generator | own RandomState) and choice script; distinct = (optimiser, encoding, nobj, constrained, generator mode, script, size class); "
         "non-trivial = the optimiser returned a solution")
